@@ -111,9 +111,96 @@ fn run_batch(case: &Value) -> Value {
            "write_sizes": s.writes.iter().map(|w| w.len()).collect::<Vec<_>>()})
 }
 
+/// Outbound with the production limit, history-dependent: an optional first big send (the write
+/// buffer has grown and was flushed), then calls of `fill` payload bytes are queued up to just
+/// below the limit, then calls of `small` payload bytes until the first refusal. Reports whether
+/// the queue ever held more than the limit, where the refusal came, and what the flush wrote.
+fn run_fill(case: &Value) -> Value {
+    use zlink_core::Call;
+    let limit = case["limit"].as_u64().unwrap() as usize;
+    let first = case["first"].as_u64().unwrap_or(0) as usize;
+    let fill = case["fill"].as_u64().unwrap() as usize;
+    let small = case["small"].as_u64().unwrap() as usize;
+    let (sock, sh) = zv::SSocket::new(Default::default());
+    let mut conn = Connection::new(sock);
+    let wire_len = |c: &Call<Method>| serde_json::to_vec(c).unwrap().len() + 1;
+    if first > 0 {
+        let c = Call::new(Method::Put { name: "f".repeat(first), value: 0 });
+        let fut = conn.send_call(&c);
+        let mut fut = std::pin::pin!(fut);
+        match poll_once(fut.as_mut()) {
+            Poll::Ready(Ok(())) => {}
+            Poll::Ready(Err(e)) => return json!({"id": case["id"], "res": format!("first:{}", err_name(&e))}),
+            Poll::Pending => return json!({"id": case["id"], "res": "first:pending"}),
+        }
+        let w: usize = sh.borrow().writes.iter().map(|w| w.len()).sum();
+        if w != wire_len(&c) {
+            return json!({"id": case["id"], "res": "first:short", "bytes": w});
+        }
+        sh.borrow_mut().writes.clear();
+    }
+    let big = Call::new(Method::Put { name: "y".repeat(fill), value: 1 });
+    let big_len = wire_len(&big);
+    let sm = Call::new(Method::Put { name: "z".repeat(small), value: 2 });
+    let sm_len = wire_len(&sm);
+    let mut queued = 0usize;
+    let mut accepted = 0usize;
+    let mut max_queued = 0usize;
+    let mut refused_early: Option<(usize, String)> = None;
+    while queued + big_len + 2 * sm_len <= limit {
+        match conn.enqueue_call(&big) {
+            Ok(()) => {
+                queued += big_len;
+                accepted += 1;
+            }
+            Err(e) => {
+                refused_early = Some((queued, err_name(&e)));
+                break;
+            }
+        }
+    }
+    max_queued = max_queued.max(queued);
+    let mut refusal = json!(null);
+    if refused_early.is_none() {
+        for _ in 0..(limit / sm_len + 10) {
+            match conn.enqueue_call(&sm) {
+                Ok(()) => {
+                    queued += sm_len;
+                    accepted += 1;
+                    max_queued = max_queued.max(queued);
+                    if queued > limit + 4 * 256 {
+                        break; // far beyond: stop (reported through max_queued)
+                    }
+                }
+                Err(e) => {
+                    refusal = json!({"queued": queued, "len": sm_len, "err": err_name(&e)});
+                    break;
+                }
+            }
+        }
+    }
+    let res = {
+        let fut = conn.flush();
+        let mut fut = std::pin::pin!(fut);
+        match poll_once(fut.as_mut()) {
+            Poll::Ready(Ok(())) => "ok".to_string(),
+            Poll::Ready(Err(e)) => err_name(&e),
+            Poll::Pending => "pending".to_string(),
+        }
+    };
+    let s = sh.borrow();
+    let flushed: usize = s.writes.iter().map(|w| w.len()).sum();
+    json!({"id": case["id"], "res": res, "accepted": accepted, "queued": queued, "max_queued": max_queued,
+           "refusal": refusal, "refused_early": refused_early.map(|(q, e)| json!({"queued": q, "err": e})),
+           "flushed": flushed, "writes": s.writes.len(), "fill_len": big_len, "small_len": sm_len})
+}
+
 fn run_case(case: &Value) -> Value {
     if case["kind"] == "batch" {
         return run_batch(case);
+    }
+    if case["kind"] == "fill" {
+        return run_fill(case);
     }
     let size = case["size"].as_u64().unwrap() as usize;
     let consumed = std::rc::Rc::new(std::cell::Cell::new(0));
